@@ -27,6 +27,9 @@
         or not, and — committed = true — every tag (the first one too) written to the registry and read back
         (`Tag.dumps`/`Tag.loads`) before the training that starts from it
 
+  (icast (int <int>) | (str <atom>) | (ratio <int> <nat>) | other)
+        → (ok <int>) | CastError                      Integer.cast of a value, exact on unbounded integers
+
   The model is polymorphic in the ordinal axis; the driver runs it at `Int` (ranks of the kind's domain points).
 -/
 import ForML.Model.Sexp
@@ -34,6 +37,7 @@ import ForML.Model.Ordinal
 import ForML.Model.OrdinalShip
 import ForML.Model.OrdinalCache
 import ForML.Model.OrdinalChain
+import ForML.Model.OrdinalInt
 open ForML ForML.Ordinal
 
 def optStr? : Sexp → Option (Option String)
@@ -185,6 +189,18 @@ def stepC10 : Sexp → Sexp
                 | .error e => ofErr e))]
       | none => .atom "bad-op"
     | _, _, _, _, _, _, _, _ => .atom "bad-op"
+  | .list [.atom "icast", b] =>
+    let bound : Option IntBound := match b with
+      | .list [.atom "int", n] => n.int?.map .int
+      | .list [.atom "str", .atom s] => some (.str s.toList)
+      | .list [.atom "ratio", n, d] => do pure (.ratio (← n.int?) (← d.nat?))
+      | .atom "other" => some .other
+      | _ => none
+    match bound with
+    | some b => match castInteger b with
+      | .ok n => .list [.atom "ok", Sexp.ofInt n]
+      | .error _ => .atom "CastError"
+    | none => .atom "bad-op"
   | .list [.atom "ordinal", a] =>
     match onceArg? a with
     | some a =>
